@@ -592,10 +592,11 @@ class tcp (packet_base):
     while i < self.hdr_len:
       # Special case single-byte options
       if arr[i] == tcp_opt.EOL:
-        # The rest of the option area is padding.  Keep it, so that the
-        # header is packed again with the length it came with.
-        self.options.extend(tcp_opt(tcp_opt.EOL, None)
-                            for _ in range(self.hdr_len - i))
+        # The rest of the option area is padding.  hdr() pads to the next
+        # 32 bit boundary by itself; keep only the padding beyond that, so
+        # that the header is packed again with the length it came with.
+        extra = (self.hdr_len - i) - ((tcp.MIN_LEN - i) % 4)
+        self.options.extend(tcp_opt(tcp_opt.EOL, None) for _ in range(extra))
         break
       if arr[i] == tcp_opt.NOP:
         self.options.append(tcp_opt(tcp_opt.NOP,None))
